@@ -188,3 +188,11 @@ package hashmap
 //@   props C07
 //@   nosafety
 //@   nowrite
+
+// interface-level frame of the map operations (implemented by *hashMap above)
+//@ func Map.Assoc
+//@   pure
+//@   nowrite
+//@ func Map.Dissoc
+//@   pure
+//@   nowrite
